@@ -66,6 +66,7 @@ def pcStr : PC → String
 
 /-- compile the runs of the request (observed order; id = position) -/
 def parseRuns (cwd : String) (j : Json) : Option (List Run) := do
+  let home := (getStr? j "home").getD "/root"
   let es ← (← getArr? j "executors").toList.mapM parseExec
   let ss ← (← getArr? j "suites").toList.mapM parseSuite
   let rs ← getArr? j "runs"
@@ -80,8 +81,13 @@ def parseRuns (cwd : String) (j : Json) : Option (List Run) := do
       let inv ← getNat? r "inv"
       let excl ← getBool? r "excl"
       let done0 := (getNat? r "done0").getD 0
+      -- `env` on machine, runs, experiment, execution-details level (outermost first), and the benchmark's
+      let outer ← match getArr? r "outer_env" with
+        | some a => a.toList.mapM (fun x => match x with | .null => some none | v => (envOf? v).map some)
+        | none => some []
+      let benchEnv ← optEnv? r "bench_env"
       let tl ← go rest (i + 1)
-      pure (mkRun cwd i e s inv excl done0 :: tl)
+      pure (mkRun cwd i e s inv excl done0 home outer benchEnv :: tl)
   go rs.toList 0
 
 /-- results are keyed by (script, directory the script runs in) -/
